@@ -53,5 +53,65 @@ def run(prop, tier):
         bad += 1
         print("EXTRA-VIOLATION module=Builtins clause=B_StatusProtocol case=%s" % json.dumps(bobs[f["line"] - 1]))
     print("Builtins/FixedStatus: %d cases judged, %d failing" % (len(bobs), len(bt.marked["FAIL"])))
+    # ---- ConfigLayers: the application's own Config::read() in child processes with every combination of layers
+    import subprocess
+    c = vlib.run_tlc("MC_ConfigLayers", "MC_ConfigLayers.cfg", wd, workers=1, timeout=300)
+    if not c.ok:
+        raise vlib.ToolError("TLC reports %s on MC_ConfigLayers.cfg" % c.violated)
+    ha = vlib.cargo_build("hx-app")
+    ENV = {"timeout": ("PASSAGE_TIMEOUT", "31"), "address": ("PASSAGE_ADDRESS", "127.0.0.1:1111"), "auth_secret": ("PASSAGE_AUTHSECRET", "envsecret")}
+    FILE = {"timeout": 'timeout = 47\n', "address": 'address = "127.0.0.2:2222"\n', "auth_secret": 'auth_secret = "filesecret"\n'}
+    LABEL = {"31": "env:timeout", "47": "file:timeout", "127.0.0.1:1111": "env:address", "127.0.0.2:2222": "file:address", "envsecret": "env:auth_secret",
+             "filesecret": "file:auth_secret", "secretfile-content": "secretfile", "5": "env:limit", "7": "file:limit"}
+    recs = []
+    cdir = os.path.join(wd, "cfg")
+    os.makedirs(cdir, exist_ok=True)
+    for k, sc in enumerate(x["sc"] for x in c.marked["REPLAY"]):
+        env = {kk: v for kk, v in os.environ.items() if not kk.startswith("PASSAGE_")}
+        cfgp, secp = os.path.join(cdir, "c%d.toml" % k), os.path.join(cdir, "s%d" % k)
+        body = "".join(FILE[f] for f in sc["file"] if f in FILE)
+        if "limit" in sc["file"]:
+            body += "[rate_limiter]\nduration = 9\nlimit = 7\n"
+        open(cfgp, "w").write(body)
+        env["CONFIG_FILE"] = cfgp
+        env["AUTH_SECRET_FILE"] = secp if sc["secretfile"] else os.path.join(cdir, "absent")
+        if sc["secretfile"]:
+            open(secp, "w").write("secretfile-content")
+        for f in sc["env"]:
+            if f == "limit":
+                env["PASSAGE_RATELIMITER_LIMIT"] = "5"
+                env["PASSAGE_RATELIMITER_DURATION"] = "3"
+            else:
+                env[ENV[f][0]] = ENV[f][1]
+        p = subprocess.run([ha, "config"], env=env, cwd=cdir, stdout=subprocess.PIPE, stderr=subprocess.PIPE, timeout=60)
+        try:
+            g = json.loads(p.stdout.decode().strip().split("\n")[-1])
+        except Exception:
+            g = {"ok": False, "error": p.stderr.decode()[-200:]}
+        if not g.get("ok"):
+            got = {f: "error" for f in ("timeout", "address", "auth_secret", "limit")}
+        else:
+            lim = g["rate_limiter"]["limit"] if isinstance(g["rate_limiter"], dict) else "<none>"
+            raw = {"timeout": str(g["timeout"]), "address": g["address"], "auth_secret": g["auth_secret"], "limit": str(lim)}
+            got = {f: LABEL.get(v, v) for f, v in raw.items()}
+        recs.append({"sc": sc, "got": got})
+    cin = os.path.join(wd, "cfg_obs.ndjson")
+    vlib.write_ndjson(cin, recs)
+    ct = vlib.run_tlc("Trace_ConfigLayers", "Trace_ConfigLayers.cfg", wd, workers=1, timeout=300, markers=("FAIL", "NOTCONSUMED"), env_extra={"TRACE": cin}, java_opts=["-Xss1g"])
+    if not ct.ok or ct.distinct != len(recs) + 1:
+        raise vlib.ToolError("Trace_ConfigLayers did not consume all records:\n%s" % ct.output[-1500:])
+    known_dup = 0
+    for f in ct.marked["FAIL"]:
+        sc = recs[f["line"] - 1]["sc"]
+        dup = ("auth_secret" in sc["env"] and ("auth_secret" in sc["file"] or sc["secretfile"])) or ("limit" in sc["env"] and "limit" in sc["file"])
+        if dup and all(v == "error" for v in recs[f["line"] - 1]["got"].values()):
+            # observation outside the listed properties (DESIGN.md 0.4): a field given under its underscore name in a file AND under its
+            # alias spelling in the environment makes Config::read() fail with "duplicate field" instead of letting the environment win
+            known_dup += 1
+            continue
+        bad += 1
+        print("EXTRA-VIOLATION module=ConfigLayers clauses=%s scenario=%s got=%s" % (",".join(sorted(f["clauses"])), json.dumps(recs[f["line"] - 1]["sc"]), json.dumps(recs[f["line"] - 1]["got"])))
+    print("ConfigLayers: %d layer combinations through the real Config::read(), %d failing, of which %d are the known 'duplicate field' observation "
+          "(auth_secret / rate_limiter given in a file and, under the alias spelling, in the environment)" % (len(recs), len(ct.marked["FAIL"]), known_dup))
     vlib.cleanup(wd)
     return 1 if bad else 0
